@@ -148,6 +148,15 @@ class Reader:
         return False
 
 
+class GzipSeqReader(Reader):
+    def tell(self):
+        raise HarnessFailure("tell() on a gzip.open() handle: its offsets are not the BGZF virtual offsets stored in gaftools' indexes")
+
+    def seek(self, c, whence=0):
+        raise HarnessFailure("seek() on a gzip.open() handle with an index offset: BGZF virtual offsets are not gzip stream offsets "
+                             "(they only coincide inside the first BGZF block)")
+
+
 class BinReader:
     """open(path, 'rb'): magic sniffing and pickle.load only"""
 
@@ -321,7 +330,9 @@ class _Gzip:
         if mode == "rt":
             return Reader(e, path, MFile("text", mf.lines, None), False)
         if mode in ("rb", "r"):
-            return Reader(e, path, mf, True)
+            # sequential reading works (BGZF is valid multi-member gzip) but offsets of a gzip stream are positions in the
+            # UNCOMPRESSED data, not BGZF virtual offsets: tell()/seek() on this handle are a different coordinate system
+            return GzipSeqReader(e, path, MFile("gzip", mf.lines, None), True)
         raise Unsupported("gzip mode %r" % mode)
 
 
